@@ -520,3 +520,438 @@ Proof.
         | cbn [snd]; eexists; split; [reflexivity | apply NC_fallback]
         | reflexivity ].
 Qed.
+
+Lemma close_circuit_flag_false st t force ans s : flag s = false -> close_circuit st t force ans s = (s, []).
+Proof.
+  intros H. unfold close_circuit, is_open. rewrite H.
+  destruct (l_force_open (cfg s)), (l_forced_closed (cfg s)); reflexivity.
+Qed.
+
+Lemma other_completions_do_not_open (st : static) : forall s id e cs start expected derived,
+  find_call id s = Some cs -> cs_phase cs = PRun start expected derived ->
+  flag s = false -> (res_panics (e_res e) = true \/ is_error (end_kind s cs e) = false) ->
+  flag (fst (step st s (EndRun id e))) = false /\ any_circ_ev (snd (step st s (EndRun id e))) = [].
+Proof.
+  intros s id e cs start expected derived Hf Hp Hfl Hk.
+  rewrite step_fst, step_snd. cbn [step_core]. unfold end_run. rewrite Hf, Hp.
+  unfold end_kind in *. rewrite Hp in *. unfold classify in *.
+  assert (Fin : forall (r : state * list obs),
+    flag (fst r) = false -> NC (snd r) ->
+    flag (fst r) = false /\ any_circ_ev (snd r ++ [reading st (fst r)]) = []).
+  { intros r A B. split; [exact A|]. change (NC (snd r ++ [reading st (fst r)])). nc. }
+  assert (Run : forall k t d, flag (fst (emit_run st k t d s)) = false /\ NC (snd (emit_run st k t d s))).
+  { intros. unfold emit_run. cbn [fst snd flag set_logic]. split; [exact Hfl | nc]. }
+  destruct (e_res e) as [|k|k|k|v] eqn:Er; cbn [res_panics res_is_bad res_is_nil negb andb] in *.
+  - destruct Hk as [Hk|Hk]; [discriminate|].
+    destruct (match expected with Some x => x <? clock s | None => false end) eqn:Et; [discriminate|].
+    apply Fin.
+    + destruct (Run KSuccess (clock s) (Some (clock s - start))) as [A B].
+      destruct (emit_run st KSuccess (clock s) (Some (clock s - start)) s) as [sa oa]. cbn [fst snd] in A, B.
+      rewrite close_circuit_flag_false by exact A. destruct (is_open sa); cbn [fst flag drop_call set_calls set_cmds]; exact A.
+    + destruct (Run KSuccess (clock s) (Some (clock s - start))) as [A B].
+      destruct (emit_run st KSuccess (clock s) (Some (clock s - start)) s) as [sa oa]. cbn [fst snd] in A, B.
+      rewrite close_circuit_flag_false by exact A. destruct (is_open sa); cbn [snd]; nc.
+  - destruct Hk as [Hk|Hk]; [discriminate|].
+    destruct (match expected with Some x => x <? clock s | None => false end) eqn:Et; [discriminate|].
+    destruct (cs_done cs && negb (l_ignore_int (cfg s)) && ie_says (l_ie (cfg s))) eqn:Ei; [|discriminate].
+    destruct (Run KInterrupt (clock s) (Some (clock s - start))) as [A B].
+    destruct (emit_run st KInterrupt (clock s) (Some (clock s - start)) s) as [sa oa]. cbn [fst snd] in A, B.
+    cbv zeta. rewrite let_pair. apply Fin.
+    + cbn [fst]. match goal with |- context [fallback_stage ?a ?b ?c ?d ?e ?f] =>
+        destruct (fallback_keeps a b c d e f) as [_ FB]; rewrite FB end. exact A.
+    + cbn [snd]. nc. apply NC_fallback.
+  - destruct (Run KBadRequest (clock s) (Some (clock s - start))) as [A B].
+    destruct (emit_run st KBadRequest (clock s) (Some (clock s - start)) s) as [sa oa]. cbn [fst snd] in A, B.
+    apply Fin; [exact A | cbn [snd]; nc].
+  - destruct (Run KBadRequest (clock s) (Some (clock s - start))) as [A B].
+    destruct (emit_run st KBadRequest (clock s) (Some (clock s - start)) s) as [sa oa]. cbn [fst snd] in A, B.
+    apply Fin; [exact A | cbn [snd]; nc].
+  - apply Fin; [exact Hfl | cbn [snd]; nc].
+Qed.
+
+(* ====================================================================== *)
+(* consecutive errors                                                      *)
+(* ====================================================================== *)
+Lemma since_transition_snoc evs e :
+  since_transition (evs ++ [e]) =
+  match e with LRun k t => since_transition evs ++ [(k, t)] | LCirc _ _ => [] | LAsk _ => since_transition evs end.
+Proof. unfold since_transition. rewrite fold_left_app. reflexivity. Qed.
+
+Lemma opener_after_snoc o evs e : opener_after o (evs ++ [e]) = opener_feed (opener_after o evs) e.
+Proof. rewrite opener_after_app. reflexivity. Qed.
+
+Definition te_step (c : Z) (k : runkind) : Z := if is_error k then c + 1 else 0.
+Definition te (l : list runkind) : Z := fold_left te_step l 0.
+
+Lemma te_snoc l k : te (l ++ [k]) = te_step (te l) k.
+Proof. unfold te. rewrite fold_left_app. reflexivity. Qed.
+
+Lemma te_nonneg l : 0 <= te l.
+Proof.
+  induction l as [|k l IH] using rev_ind; [unfold te; cbn; lia|].
+  rewrite te_snoc. unfold te_step. destruct (is_error k); lia.
+Qed.
+
+Lemma ewe_nil thr : ends_with_errors thr [] <-> thr <= 0.
+Proof.
+  unfold ends_with_errors. split.
+  - intros (pre & suf & E & L & _). symmetry in E. apply app_eq_nil in E. destruct E as [_ ->]. cbn in L. lia.
+  - intros H. exists [], []. cbn. repeat split; auto.
+Qed.
+
+Lemma ewe_snoc thr l k :
+  ends_with_errors thr (l ++ [k]) <-> thr <= 0 \/ (is_error k = true /\ ends_with_errors (thr - 1) l).
+Proof.
+  unfold ends_with_errors. split.
+  - intros (pre & suf & E & L & F).
+    destruct suf as [|x suf'] using rev_ind; [left; cbn in L; lia|]. clear IHsuf'.
+    rewrite app_assoc in E. apply app_inj_tail in E. destruct E as [E1 E2]. subst x.
+    rewrite forallb_app in F. apply andb_true_iff in F. destruct F as [F1 F2]. cbn in F2.
+    rewrite app_length in L. cbn [length] in L.
+    right. split; [destruct (is_error k); [reflexivity|discriminate]|].
+    exists pre, suf'. repeat split; [exact E1 | lia | exact F1].
+  - intros [H | (Hk & pre & suf & E & L & F)].
+    + exists (l ++ [k]), []. rewrite app_nil_r. cbn. repeat split; auto.
+    + exists pre, (suf ++ [k]). repeat split.
+      * rewrite E, app_assoc. reflexivity.
+      * rewrite app_length. cbn [length]. lia.
+      * rewrite forallb_app, F. cbn. rewrite Hk. reflexivity.
+Qed.
+
+Lemma te_spec l : forall thr, thr <= te l <-> ends_with_errors thr l.
+Proof.
+  induction l as [|k l IH] using rev_ind; intros thr.
+  - rewrite ewe_nil. unfold te. cbn. reflexivity.
+  - rewrite te_snoc, ewe_snoc. unfold te_step. pose proof (te_nonneg l) as Hn.
+    destruct (is_error k).
+    + rewrite <- (IH (thr - 1)). split; [intros H; right; split; [reflexivity | lia] | intros [H | [_ H]]; lia].
+    + split; [intros H; left; exact H | intros [H | [H _]]; [exact H | discriminate]].
+Qed.
+
+Lemma counting_kinds_snoc evs e :
+  counting_kinds (evs ++ [e]) =
+  match e with
+  | LRun k _ => counting_kinds evs ++ (if legit k then [k] else [])
+  | LCirc _ _ => []
+  | LAsk _ => counting_kinds evs
+  end.
+Proof.
+  unfold counting_kinds. rewrite since_transition_snoc. destruct e as [k t|k t|t]; try reflexivity.
+  rewrite map_app, filter_app. cbn [map filter fst]. destruct (legit k); reflexivity.
+Qed.
+
+Lemma consec_state thr evs : opener_after (OpConsec 0 thr) evs = OpConsec (te (counting_kinds evs)) thr.
+Proof.
+  induction evs as [|e evs IH] using rev_ind; [reflexivity|].
+  rewrite opener_after_snoc, IH, counting_kinds_snoc.
+  destruct e as [k t|k t|t]; cbn [opener_feed opener_circ opener_should_open fst].
+  - destruct k; cbn [opener_run legit]; rewrite ?app_nil_r, ?te_snoc; unfold te_step; cbn [is_error]; reflexivity.
+  - reflexivity.
+  - reflexivity.
+Qed.
+
+Lemma consecutive_iff : forall thr evs now ans,
+  snd (opener_should_open now ans (opener_after (OpConsec 0 thr) evs)) = true
+  <-> ends_with_errors thr (counting_kinds evs).
+Proof.
+  intros thr evs now ans. rewrite consec_state. cbn [opener_should_open snd].
+  rewrite <- te_spec. lia.
+Qed.
+
+(* ====================================================================== *)
+(* time flows forward                                                      *)
+(* ====================================================================== *)
+Lemma nd_cons_iff l : forall x, nondecreasing (x :: l) <-> Forall (fun y => x <= y) l /\ nondecreasing l.
+Proof.
+  induction l as [|y l IH]; intros x.
+  - cbn. split; intros _; repeat split; constructor.
+  - change (nondecreasing (x :: y :: l)) with (x <= y /\ nondecreasing (y :: l)).
+    split.
+    + intros (Hxy & Hnd). split; [|exact Hnd]. constructor; [exact Hxy|].
+      apply IH in Hnd. destruct Hnd as [Hall _]. eapply Forall_impl; [|exact Hall]. cbn beta. intros; lia.
+    + intros (Hall & Hnd). split; [|exact Hnd]. inversion Hall; assumption.
+Qed.
+
+Lemma nd_app_iff a : forall b,
+  nondecreasing (a ++ b) <-> nondecreasing a /\ nondecreasing b /\ Forall (fun x => Forall (fun y => x <= y) b) a.
+Proof.
+  induction a as [|x a IH]; intros b.
+  - cbn [app]. split; [intros H; repeat split; [exact H | constructor] | intros (_ & H & _); exact H].
+  - change ((x :: a) ++ b) with (x :: (a ++ b)). rewrite !nd_cons_iff, IH, Forall_app. split.
+    + intros ((H1 & H2) & H3 & H4 & H5). repeat split; auto.
+    + intros ((H1 & H3) & H4 & H5). inversion H5; subst. repeat split; auto.
+Qed.
+
+Lemma forward_facts start evs now : forward start evs now ->
+  (forall t, In t (map lev_time evs) -> start <= t <= now) /\ 0 <= now - start <= max_i64.
+Proof.
+  intros (Hnd & Hmax). apply nd_cons_iff in Hnd. destruct Hnd as (Hge & Hnd).
+  apply nd_app_iff in Hnd. destruct Hnd as (_ & _ & Hle).
+  apply Forall_app in Hge. destruct Hge as (Hge & Hnow).
+  rewrite Forall_forall in Hge, Hle. split.
+  - intros t Ht. split; [apply Hge; exact Ht|]. specialize (Hle t Ht). inversion Hle; assumption.
+  - inversion Hnow; subst. lia.
+Qed.
+
+(* ====================================================================== *)
+(* hystrix                                                                 *)
+(* ====================================================================== *)
+Lemma cntp_map {A B} (f : A -> B) (p : B -> bool) l : cntp p (map f l) = cntp (fun x => p (f x)) l.
+Proof. induction l as [|x l IH]; [reflexivity|]. cbn [map]. rewrite !cntp_cons, IH. reflexivity. Qed.
+
+Definition stamps (p : runkind -> bool) (evs : list lev) : list Z :=
+  map snd (filter (fun kt => p (fst kt)) (since_transition evs)).
+
+Lemma stamps_snoc p evs e :
+  stamps p (evs ++ [e]) =
+  match e with
+  | LRun k t => stamps p evs ++ (if p k then [t] else [])
+  | LCirc _ _ => []
+  | LAsk _ => stamps p evs
+  end.
+Proof.
+  unfold stamps. rewrite since_transition_snoc. destruct e as [k t|k t|t]; try reflexivity.
+  rewrite filter_app, map_app. cbn [filter fst]. destruct (p k); reflexivity.
+Qed.
+
+Lemma since_transition_times evs : forall kt, In kt (since_transition evs) -> In (snd kt) (map lev_time evs).
+Proof.
+  induction evs as [|e evs IH] using rev_ind; intros kt Hin; [destruct Hin|].
+  rewrite since_transition_snoc in Hin. rewrite map_app, in_app_iff.
+  destruct e as [k t|k t|t].
+  - apply in_app_iff in Hin. destruct Hin as [Hin | [<- | []]]; [left; apply IH; exact Hin | right; left; reflexivity].
+  - destruct Hin.
+  - left. apply IH; exact Hin.
+Qed.
+
+(* every timestamp in a counter history is a stamp of the opener's history *)
+Definition times_in (evs : list lev) (h : list op) : Prop :=
+  Forall (fun o => forall t, op_time o = Some t -> In t (map lev_time evs)) h.
+
+Lemma times_in_snoc evs e h o :
+  times_in evs h -> (forall t, op_time o = Some t -> t = lev_time e) -> times_in (evs ++ [e]) (h ++ [o]).
+Proof.
+  unfold times_in. intros H Ho. apply Forall_app. split.
+  - eapply Forall_impl; [|exact H]. cbn beta. intros x Hx t Ht. rewrite map_app, in_app_iff. left. apply Hx; exact Ht.
+  - constructor; [|constructor]. intros t Ht. rewrite map_app, in_app_iff. right. left. symmetry. apply Ho; exact Ht.
+Qed.
+Lemma times_in_weaken evs e h : times_in evs h -> times_in (evs ++ [e]) h.
+Proof.
+  unfold times_in. intros H. eapply Forall_impl; [|exact H]. cbn beta.
+  intros x Hx t Ht. rewrite map_app, in_app_iff. left. apply Hx; exact Ht.
+Qed.
+
+Section Hystrix.
+Variables (n w start pct vol : Z).
+Hypothesis Hn : 0 < n.
+Hypothesis Hw : 0 < w.
+
+Definition mkh (e a : rc) : hopener :=
+  {| ho_n := n; ho_w := w; ho_start := start; ho_pct := pct; ho_vol := vol; ho_err := e; ho_att := a |}.
+
+Notation rc_after := (RollingCounter.state_after n w start).
+
+Lemma rc_after_inc h t : rc_after (h ++ [Inc t]) = inc n w start t (rc_after h).
+Proof. rewrite RollingCounter_Proofs.state_snoc. reflexivity. Qed.
+Lemma rc_after_reset h t : rc_after (h ++ [Reset t]) = reset n w start t (rc_after h).
+Proof. rewrite RollingCounter_Proofs.state_snoc. reflexivity. Qed.
+Lemma rc_after_sum h t : rc_after (h ++ [SumAt t]) = fst (rolling_sum_at n w start t (rc_after h)).
+Proof.
+  rewrite RollingCounter_Proofs.state_snoc. cbn [RollingCounter.step].
+  destruct (rolling_sum_at n w start t (rc_after h)); reflexivity.
+Qed.
+
+(* the opener's counters are rolling counters driven by histories that mirror the opener's *)
+Definition HInv (evs : list lev) (ha he : list op) : Prop :=
+  opener_after (OpHystrix (mkh (RollingCounter.init n) (RollingCounter.init n))) evs
+    = OpHystrix (mkh (rc_after he) (rc_after ha)) /\
+  incs_since_reset ha = stamps legit evs /\ incs_since_reset he = stamps is_error evs /\
+  times_in evs ha /\ times_in evs he.
+
+Lemma hinv_reachable evs : exists ha he, HInv evs ha he.
+Proof.
+  induction evs as [|e evs IH] using rev_ind.
+  - exists [], []. repeat split; constructor.
+  - destruct IH as (ha & he & Hst & Ia & Ie & Ta & Te).
+    destruct e as [k t|k t|t].
+    + (* a run event *)
+      assert (Keep : legit k = false -> is_error k = false -> HInv (evs ++ [LRun k t]) ha he).
+      { intros Hl He. unfold HInv. rewrite opener_after_snoc, Hst, !stamps_snoc, Hl, He, !app_nil_r.
+        cbn [opener_feed]. rewrite neutral_kinds by exact Hl.
+        repeat split; auto using times_in_weaken. }
+      destruct k; try (exists ha, he; apply Keep; reflexivity).
+      * exists (ha ++ [Inc t]), he. unfold HInv.
+        rewrite opener_after_snoc, Hst, !stamps_snoc, RollingCounter_Proofs.incs_snoc, rc_after_inc. cbn [opener_feed opener_run legit is_error incs_step].
+        rewrite app_nil_r, Ia. repeat split; auto using times_in_weaken.
+        apply times_in_snoc; [exact Ta|]. cbn. intros t0 H; congruence.
+      * exists (ha ++ [Inc t]), (he ++ [Inc t]). unfold HInv.
+        rewrite opener_after_snoc, Hst, !stamps_snoc, !RollingCounter_Proofs.incs_snoc, !rc_after_inc. cbn [opener_feed opener_run legit is_error incs_step].
+        rewrite Ia, Ie. repeat split; auto; (apply times_in_snoc; [assumption|]; cbn; intros t0 H; congruence).
+      * exists (ha ++ [Inc t]), (he ++ [Inc t]). unfold HInv.
+        rewrite opener_after_snoc, Hst, !stamps_snoc, !RollingCounter_Proofs.incs_snoc, !rc_after_inc. cbn [opener_feed opener_run legit is_error incs_step].
+        rewrite Ia, Ie. repeat split; auto; (apply times_in_snoc; [assumption|]; cbn; intros t0 H; congruence).
+    + (* a transition *)
+      exists (ha ++ [Reset t]), (he ++ [Reset t]). unfold HInv.
+      rewrite opener_after_snoc, Hst, !stamps_snoc, !RollingCounter_Proofs.incs_snoc, !rc_after_reset. cbn [opener_feed opener_circ incs_step].
+      repeat split; auto; (apply times_in_snoc; [assumption|]; cbn; intros t0 H; congruence).
+    + (* ShouldOpen was asked *)
+      unfold HInv. rewrite opener_after_snoc, Hst, !stamps_snoc.
+      cbn [opener_feed opener_should_open]. unfold ho_should_open. cbn [ho_n ho_w ho_start ho_att ho_err ho_vol ho_pct mkh].
+      pose proof (rc_after_sum ha t) as Sa. pose proof (rc_after_sum he t) as Se.
+      destruct (rolling_sum_at n w start t (rc_after ha)) as [att1 a]. cbn [fst] in Sa.
+      destruct ((a =? 0) || (a <? vol)).
+      * exists (ha ++ [SumAt t]), he. cbn [fst]. rewrite RollingCounter_Proofs.incs_snoc, Sa. cbn [incs_step].
+        repeat split; auto using times_in_weaken.
+        apply times_in_snoc; [assumption|]; cbn; intros t0 H; congruence.
+      * destruct (rolling_sum_at n w start t (rc_after he)) as [err1 e]. cbn [fst] in Se.
+        exists (ha ++ [SumAt t]), (he ++ [SumAt t]). cbn [fst]. rewrite !RollingCounter_Proofs.incs_snoc, Sa, Se. cbn [incs_step].
+        repeat split; auto; (apply times_in_snoc; [assumption|]; cbn; intros t0 H; congruence).
+Qed.
+End Hystrix.
+
+Section HystrixSum.
+Variables (n w start : Z).
+Hypothesis Hn : 0 < n.
+Hypothesis Hw : 0 < w.
+
+Lemma off_id now t : 0 <= now - start <= max_i64 -> start <= t <= now -> off start t = t - start.
+Proof. intros H1 H2. unfold off. apply clamp64_id. unfold min_i64. lia. Qed.
+
+Lemma idx_bucket now t : 0 <= now - start <= max_i64 -> start <= t <= now -> idx w start t = bucket w start t.
+Proof. intros H1 H2. unfold idx, bucket. rewrite (off_id now t H1 H2). reflexivity. Qed.
+
+Lemma valid_true now t : 0 <= now - start <= max_i64 -> start <= t <= now -> valid start t = true.
+Proof. intros H1 H2. unfold valid. rewrite (off_id now t H1 H2). lia. Qed.
+
+Lemma bucket_mono a b : a <= b -> bucket w start a <= bucket w start b.
+Proof. intros H. unfold bucket. apply Z.div_le_mono; lia. Qed.
+
+Lemma bucket_nonneg t : start <= t -> 0 <= bucket w start t.
+Proof. intros H. unfold bucket. apply Z.div_pos; lia. Qed.
+
+Lemma latest_le now hh : 0 <= now - start <= max_i64 ->
+  Forall (fun o => forall t, op_time o = Some t -> start <= t <= now) hh ->
+  0 <= latest w start hh <= bucket w start now.
+Proof.
+  intros Hspan. induction hh as [|o hh IH] using rev_ind; intros Hall.
+  - unfold latest. cbn [fold_left]. pose proof (bucket_nonneg now ltac:(lia)). lia.
+  - apply Forall_app in Hall. destruct Hall as (Hall & Ho). specialize (IH Hall).
+    rewrite RollingCounter_Proofs.latest_snoc. unfold present.
+    destruct (op_time o) as [t|] eqn:Et; [|exact IH].
+    inversion Ho as [|? ? Ho1 _]; subst. specialize (Ho1 t Et).
+    rewrite (valid_true now t Hspan Ho1), (idx_bucket now t Hspan Ho1).
+    pose proof (bucket_mono t now ltac:(lia)). lia.
+Qed.
+
+(* the sum the counter reports at `now` counts exactly the stamps inside the window ending at `now` *)
+Lemma sum_at_spec p evs now hh :
+  forward start evs now -> incs_since_reset hh = stamps p evs -> times_in evs hh ->
+  snd (rolling_sum_at n w start now (RollingCounter.state_after n w start hh))
+  = cntp (fun kt => p (fst kt) && in_win n w start now (snd kt)) (since_transition evs).
+Proof.
+  intros Hf Hi Ht. destruct (forward_facts _ _ _ Hf) as (Hin & Hspan).
+  pose proof (RollingCounter_Proofs.rolling_sum_spec n w start Hn Hw hh now) as S.
+  cbn [RollingCounter.step] in S.
+  destruct (rolling_sum_at n w start now (RollingCounter.state_after n w start hh)) as [s1 v].
+  cbn [snd] in *. injection S as ->.
+  rewrite RollingCounter_Proofs.live_length, RollingCounter_Proofs.incs_snoc, RollingCounter_Proofs.latest_snoc.
+  cbn [incs_step]. unfold present. cbn [op_time].
+  assert (Hnow : start <= now <= now) by lia.
+  rewrite (valid_true now now Hspan Hnow), (idx_bucket now now Hspan Hnow).
+  assert (Hall : Forall (fun o => forall t, op_time o = Some t -> start <= t <= now) hh).
+  { eapply Forall_impl; [|exact Ht]. cbn beta. intros o Ho t Hot. apply Hin. apply Ho; exact Hot. }
+  pose proof (latest_le now hh Hspan Hall) as Hl.
+  replace (Z.max (latest w start hh) (bucket w start now)) with (bucket w start now) by lia.
+  rewrite Hi. unfold stamps. rewrite cntp_map, cntp_filter. apply cntp_ext.
+  intros kt Hkt. f_equal.
+  pose proof (Hin _ (since_transition_times evs kt Hkt)) as Hb.
+  unfold in_window, in_win. rewrite (valid_true now _ Hspan Hb), (idx_bucket now _ Hspan Hb). reflexivity.
+Qed.
+End HystrixSum.
+
+Lemma hystrix_iff : forall n dur start pct vol evs now ans,
+  0 < n -> 0 < godiv dur n -> forward start evs now ->
+  snd (opener_should_open now ans (opener_after (OpHystrix (ho_init n dur start pct vol)) evs))
+  = hystrix_rule vol pct (attempts n (godiv dur n) start evs now) (errors n (godiv dur n) start evs now).
+Proof.
+  intros n dur start pct vol evs now ans Hn Hw Hf. set (w := godiv dur n) in *.
+  destruct (hinv_reachable n w start pct vol evs) as (ha & he & Hst & Ia & Ie & Ta & Te).
+  change (ho_init n dur start pct vol) with (mkh n w start pct vol (RollingCounter.init n) (RollingCounter.init n)).
+  rewrite Hst. cbn [opener_should_open]. unfold ho_should_open.
+  cbn [ho_n ho_w ho_start ho_att ho_err ho_vol ho_pct mkh].
+  pose proof (sum_at_spec n w start Hn Hw legit evs now ha Hf Ia Ta) as Sa.
+  pose proof (sum_at_spec n w start Hn Hw is_error evs now he Hf Ie Te) as Se.
+  fold (attempts n w start evs now) in Sa. fold (errors n w start evs now) in Se.
+  destruct (rolling_sum_at n w start now (RollingCounter.state_after n w start ha)) as [att1 a].
+  cbn [snd] in Sa. rewrite <- Sa.
+  unfold hystrix_rule.
+  destruct ((a =? 0) || (a <? vol)) eqn:E; [cbn [snd]; lia|].
+  destruct (rolling_sum_at n w start now (RollingCounter.state_after n w start he)) as [err1 e].
+  cbn [snd] in Se |- *. rewrite <- Se. lia.
+Qed.
+
+(* ====================================================================== *)
+(* composition on the circuit                                              *)
+(* ====================================================================== *)
+Lemma nd_const c l : Forall (fun x => x = c) l -> nondecreasing (c :: l).
+Proof.
+  induction l as [|x l IH]; intros H; [cbn; auto|].
+  inversion H; subst. apply nd_cons_iff. split.
+  - constructor; [lia|]. eapply Forall_impl; [|eassumption]. cbn beta. intros; lia.
+  - apply IH; assumption.
+Qed.
+
+(* what the opener is shown along a history with forward ticks carries non-decreasing stamps
+   between the clock's first and last value *)
+Lemma trace_times st : forall h s, ticks_forward h ->
+  nondecreasing (clock s :: map lev_time (opener_view (all_obs (trace_from st s h))) ++ [clock (state_after st s h)]).
+Proof.
+  induction h as [|ev h IH]; intros s Ht.
+  - cbn. repeat split; lia.
+  - inversion Ht as [|? ? Hev Ht']; subst. specialize (IH (fst (step st s ev)) Ht').
+    rewrite all_obs_trace_cons, opener_view_app, map_app, state_after_cons.
+    destruct (step_fed st s ev) as (_ & Hok & Hc).
+    set (s1 := fst (step st s ev)) in *.
+    assert (Hle : clock s <= clock s1) by (rewrite Hc; destruct ev; lia).
+    set (seg := map lev_time (opener_view (snd (step st s ev)))).
+    assert (Hseg : Forall (fun x => x = clock s) seg).
+    { unfold seg. apply Forall_forall. intros x Hx. apply in_map_iff in Hx. destruct Hx as (e & <- & He).
+      unfold lev_ok in Hok. rewrite Forall_forall in Hok. apply Hok; exact He. }
+    rewrite <- app_assoc.
+    change (nondecreasing ((clock s :: seg) ++ (map lev_time (opener_view (all_obs (trace_from st s1 h))) ++ [clock (state_after st s1 h)]))).
+    apply nd_cons_iff in IH. destruct IH as (Hall & Hnd).
+    apply nd_app_iff. split; [apply nd_const; exact Hseg|]. split; [exact Hnd|].
+    assert (Hall' : Forall (fun y => clock s <= y) (map lev_time (opener_view (all_obs (trace_from st s1 h))) ++ [clock (state_after st s1 h)])).
+    { eapply Forall_impl; [|exact Hall]. cbn beta. intros; lia. }
+    constructor; [exact Hall'|].
+    eapply Forall_impl; [|exact Hseg]. cbn beta. intros x ->. exact Hall'.
+Qed.
+
+Lemma hystrix_circuit (st : static) : forall l n dur pct vol cl t0 h id e cs start expected derived,
+  let s0 := init_state l (OpHystrix (ho_init n dur t0 pct vol)) cl t0 in
+  let s := state_after st s0 h in
+  0 < n -> 0 < godiv dur n -> ticks_forward h -> clock s - t0 <= max_i64 ->
+  find_call id s = Some cs -> cs_phase cs = PRun start expected derived -> res_panics (e_res e) = false ->
+  not_overridden s -> flag s = false -> is_error (end_kind s cs e) = true ->
+  let evs := opener_view (all_obs (trace_from st s0 h)) ++ [LRun (end_kind s cs e) (clock s)] in
+  flag (fst (step st s (EndRun id e)))
+  = hystrix_rule vol pct (attempts n (godiv dur n) t0 evs (clock s)) (errors n (godiv dur n) t0 evs (clock s)).
+Proof.
+  intros l n dur pct vol cl t0 h id e cs start expected derived s0 s Hn Hw Ht Hspan Hf Hp Hnp Hno Hfl Herr evs.
+  destruct (opens_iff_opener_says st s id e cs start expected derived Hf Hp Hnp Hno Hfl Herr) as (Hflag & _).
+  rewrite Hflag.
+  assert (Hopn : opener_run (end_kind s cs e) (clock s) (opn s)
+                 = opener_after (OpHystrix (ho_init n dur t0 pct vol)) evs).
+  { unfold evs. rewrite opener_after_snoc. cbn [opener_feed]. f_equal.
+    unfold s. rewrite opener_fed_by_observations. reflexivity. }
+  rewrite Hopn. apply hystrix_iff; [exact Hn | exact Hw |].
+  split; [|exact Hspan].
+  pose proof (trace_times st h s0 Ht) as Hnd. fold s in Hnd. change (clock s0) with t0 in Hnd.
+  unfold evs. rewrite map_app. cbn [map lev_time].
+  set (times := map lev_time (opener_view (all_obs (trace_from st s0 h)))) in *.
+  change (nondecreasing (((t0 :: times) ++ [clock s]) ++ [clock s])).
+  change (nondecreasing ((t0 :: times) ++ [clock s])) in Hnd.
+  apply nd_app_iff. split; [exact Hnd|]. split; [cbn; auto|].
+  apply nd_app_iff in Hnd. destruct Hnd as (_ & _ & Hall).
+  apply Forall_app. split; [exact Hall|]. constructor; [|constructor]. constructor; [lia | constructor].
+Qed.
